@@ -196,11 +196,12 @@ C06Base(line, pre, g) ==
   /\ \A n \in UntSet(pre, g) : V(pre, g)[n].cpu > 0 /\ V(pre, g)[n].mem > 0
   /\ line.ret = "nil" /\ ~line.panic /\ ~line.hang
 C06Applies(line, pre, g) == C06Base(line, pre, g) /\ NoFaults(line)
-\* scans whose only injected failures are reads / writes of individual listed nodes: "exactly min(rate, untainted - min_nodes)" is still
-\* owed whenever that many nodes can be tainted at all (a failed write on one candidate does not excuse tainting fewer)
+\* scans whose only injected failures are reads / writes / removals of individual listed nodes: "exactly min(rate, untainted - min_nodes)"
+\* is still owed whenever that many nodes can be tainted at all (a failed write on one candidate, or a failed removal of an already tainted
+\* node, does not excuse tainting fewer)
 NodeWriteFaultsOnly(line, pre) ==
   /\ ~NoFaults(line)
-  /\ \A i \in 1..Len(line.faults) : line.faults[i].op \in {"get", "update", "conflict"} /\ \E h \in Groups(pre) : line.faults[i].t \in Listed(pre, h)
+  /\ \A i \in 1..Len(line.faults) : line.faults[i].op \in {"get", "update", "conflict", "terminate", "delete"} /\ \E h \in Groups(pre) : line.faults[i].t \in Listed(pre, h)
 C06AppliesF(line, pre, g) == C06Base(line, pre, g) /\ NodeWriteFaultsOnly(line, pre) /\ ~line.crash
 
 C06v(line, pre) ==
@@ -213,7 +214,7 @@ C06v(line, pre) ==
              room == Cardinality(UntSet(pre, g)) - MinOf(line, pre, g)
              trig == Starved(line, pre, g) \/ Aged(line, pre, g)
              faulty == ~NoFaults(line)
-             avail == Cardinality(UntSet(pre, g) \ {line.faults[i].t : i \in 1..Len(line.faults)})
+             avail == Cardinality(UntSet(pre, g) \ {line.faults[i].t : i \in {j \in 1..Len(line.faults) : line.faults[j].op \in {"get", "update", "conflict"}}})
              Quota(rate) == IF faulty THEN Min2(Min2(rate, room), avail) ELSE Min2(rate, room)
              okFast == nT = Quota(gs.cfg.fast) /\ nU = 0 /\ nS = 0
              okSlow == nT = Quota(gs.cfg.slow) /\ nU = 0 /\ nS = 0
